@@ -348,10 +348,21 @@ class Model(ABC):
             named_params=self.named_params,
         )
 
-        reversed_aliases = reverse_alias_map(param_aliases)
-        named_params = {
-            alias: all_params[param] for param, alias in reversed_aliases.items()
-        }
+        # A parameter addressed by several named params is reported under the most
+        # specific one (as `set_params` resolves it), so that no name gets dropped.
+        owner = {}
+        for name, params in param_aliases.items():
+            for param in params:
+                current = owner.get(param)
+                if current is None or name.count("_") >= current.count("_"):
+                    owner[param] = name
+
+        named_params = {}
+        for name, params in param_aliases.items():
+            owned_params = [param for param in params if owner[param] == name]
+            for param in owned_params or params:
+                named_params[name] = all_params[param]
+
         return named_params if as_dict else named_params.values()
 
     def set_named_params(self, *args, **kwargs) -> None:
